@@ -419,6 +419,8 @@ def permute_dims(x, /, axes):
 def repeat(x, repeats, /, *, axis=0):
     if not isinstance(repeats, int):
         raise ValueError("repeat only supports integral values for `repeats`")
+    if repeats < 1:
+        raise ValueError("repeat only supports positive values for `repeats`")
 
     if axis is None:
         x = flatten(x)
